@@ -323,6 +323,8 @@ def POST_INSTALL():
     def empty(self, shape, dtype=None, **kw):
         if shim.ENABLED[0] and V._CTX[0] is not None and shim._is_float_dtype(dtype):
             return _uninit(shape)
+        if shim._is_float_dtype(dtype):      # native pass-through (validation): per-call distinct contents, as in the replay
+            return _NPUninitNative(np).empty(shape, dtype=shim._real_dtype(dtype) or float, **kw)
         return _empty(self, shape, dtype=dtype, **kw)
 
     def empty_like(self, a, dtype=None, **kw):
